@@ -175,3 +175,12 @@ func sortedFuncKeys(m map[string]*ssa.Function) []string {
 	sort.Strings(ks)
 	return ks
 }
+
+// specDir is where the logical model and the external contracts live;
+// BXV_SPEC_DIR redirects it (development and selftests only).
+func specDir() string {
+	if d := os.Getenv("BXV_SPEC_DIR"); d != "" {
+		return d
+	}
+	return "/verif/spec"
+}
